@@ -16,10 +16,18 @@ ARG_EXPRS = [
     (I, "1"), (S, '"a"'), (F, "1.5"), (B, "true"),
     (NAT("Sequence", I), "[1]"), (NAT("Sequence", S), '["a"]'), (NAT("Optional", I), "some(1)"),
     (NAT("Optional", S), 'some("a")'), (TUP(I, S), '(1, "a")'), (NAT("Sequence", NAT("Sequence", I)), "[[1]]"),
+    # tuples of arity 0-3, nested, and inside containers (a tuple parameter must match the arity exactly)
+    (TUP(), "()"), (TUP(I), "(1,)"), (TUP(I, I), "(1, 2)"), (TUP(I, I, I), "(1, 2, 3)"), (TUP(I, S, F), '(1, "a", 2.5)'),
+    (TUP(TUP(I, I), I), "((1, 2), 3)"), (TUP(TUP(I, I, I), I), "((1, 2, 3), 4)"),
+    (NAT("Sequence", TUP(I, I)), "[(1, 2)]"), (NAT("Sequence", TUP(I, I, I)), "[(1, 2, 3)]"),
+    (NAT("Optional", TUP(I, I)), "some((1, 2))"), (NAT("Optional", TUP(I, I, I)), "some((1, 2, 3))"),
 ]
 PARAM_TYPES = [I, S, F, B, NAT("Sequence", I), NAT("Sequence", S), NAT("Optional", I), TUP(I, S),
                G("T"), G("U"), NAT("Sequence", G("T")), NAT("Optional", G("T")), TUP(G("T"), G("U")),
-               NAT("Sequence", NAT("Sequence", G("T"))), TUP(G("T"), G("T"))]
+               NAT("Sequence", NAT("Sequence", G("T"))), TUP(G("T"), G("T")),
+               TUP(), TUP(I), TUP(I, I), TUP(I, I, I), TUP(G("T"), G("U"), G("T")), TUP(TUP(I, I), I),
+               NAT("Sequence", TUP(I, I)), NAT("Sequence", TUP(I, I, I)), NAT("Optional", TUP(I, I)),
+               NAT("Sequence", TUP(G("T"), G("U")))]
 NAMES = [("fo", None), ("fo", None), ("fo", None), ("eq", 2), ("to_str", 1), ("add", 2), ("len", 1), ("neg", 1)]
 
 
@@ -30,7 +38,9 @@ def gen_overload(rng, nargs_hint, args):
     ps = []
     for i in range(n):
         q = rng.random()
-        if i < len(args) and q < 0.22:
+        if i < len(args) and has_tuple(args[i][0]) and q < 0.30:
+            ps.append(tuple_variant(rng, args[i][0]))  # the argument type with a tuple of another arity (same prefix)
+        elif i < len(args) and q < 0.22 + (0.2 if has_tuple(args[i][0]) else 0):
             ps.append(args[i][0])                      # exactly the argument type
         elif i < len(args) and q < 0.62:
             ps.append(generalise(rng, args[i][0]))     # a generic pattern of it
@@ -39,6 +49,29 @@ def gen_overload(rng, nargs_hint, args):
     nreq = n if rng.random() < 0.6 else rng.randint(0, n)
     gens = sorted({g for p in ps for g in generics_of(p)})
     return (tuple(gens), tuple(ps), nreq)
+
+
+def has_tuple(t):
+    return t[0] == "t" or (t[0] == "n" and any(has_tuple(c) for c in t[2]))
+
+
+def tuple_variant(rng, t):
+    """t with one tuple shortened or extended by an item (the shared prefix still fits item by item)"""
+    if t[0] == "n":
+        return ("n", t[1], tuple(tuple_variant(rng, c) if has_tuple(c) else c for c in t[2]))
+    if t[0] == "t":
+        items = list(t[1])
+        nested = [i for i, c in enumerate(items) if has_tuple(c)]
+        m = rng.random()
+        if nested and m < 0.4:
+            i = rng.choice(nested)
+            items[i] = tuple_variant(rng, items[i])
+        elif items and m < 0.7:
+            items.pop()
+        else:
+            items.append(rng.choice([I, S, G("T")]))
+        return ("t", tuple(items))
+    return t
 
 
 def generalise(rng, t):
@@ -111,6 +144,10 @@ def run(chk):
         ovs = [(7001 + tag, gen_overload(rng, nargs, args)) for tag in range(k)]
         inner = [rng.random() < 0.25 for _ in ovs]
         bases.append((name, ovs, inner, args))
+        if any(has_tuple(t) for t, _ in args):
+            chk.count("base:tuple-argument")
+            if any(has_tuple(p) and p not in [t for t, _ in args] for _, (_, ps, _) in ovs for p in ps):
+                chk.count("base:tuple-argument-vs-other-tuple-parameter")
 
     progs = []   # (base index, variant kind, program, user overloads (tag, ov), name, args)
     for bi, (name, ovs, inner, args) in enumerate(bases):
